@@ -143,6 +143,8 @@ def run(ctx):
                 ctx.report("corpus: schema Len(%r) = %s, expected %s" % (c["text"], r, c["expect"]), "schemalen-corpus:" + c["text"], dict(c, implementation=r), case=c)
     import enum_cases
     enum_cases.stream(ctx, st, "l", quick, "c14")
+    import schema_scan_cases
+    schema_scan_cases.stream(ctx, st, "l", quick, "c14")
     ctx.extra["schema_len_cases"] = len(sl)
     ctx.extra["enum_len_cases"] = len(el)
     ctx.extra["cases"] = len(cases)
